@@ -14,8 +14,8 @@ static M3 qmat(LD x, LD y, LD z, LD w) { M3 m; m.a[0][0] = 1 - 2 * (y * y + z * 
 	m.a[2][0] = 2 * (x * z + w * y); m.a[2][1] = 2 * (y * z - w * x); m.a[2][2] = 1 - 2 * (x * x + y * y); return m; }
 static M3 mul(M3 const& A, M3 const& B) { M3 r; for (int c = 0; c < 3; ++c) for (int k = 0; k < 3; ++k) { LD s = 0; for (int j = 0; j < 3; ++j) s += A.a[j][k] * B.a[c][j]; r.a[c][k] = s; } return r; }
 static M3 rot(int axis, LD t) { M3 m; for (int i = 0; i < 3; ++i) for (int j = 0; j < 3; ++j) m.a[i][j] = i == j; LD c = cosl(t), s = sinl(t); int u = (axis + 1) % 3, v = (axis + 2) % 3; m.a[u][u] = c; m.a[u][v] = s; m.a[v][u] = -s; m.a[v][v] = c; return m; }
-template<class T> static LD mdiff(glm::mat<3, 3, T> const& g, M3 const& r) { LD d = 0; for (int c = 0; c < 3; ++c) for (int k = 0; k < 3; ++k) d = std::max(d, fabsl((LD)g[c][k] - r.a[c][k])); return d; }
-template<class T> static LD mdiff4(glm::mat<4, 4, T> const& g, M3 const& r) { LD d = 0; for (int c = 0; c < 3; ++c) for (int k = 0; k < 3; ++k) d = std::max(d, fabsl((LD)g[c][k] - r.a[c][k])); return d; }
+template<class T> static LD mdiff(glm::mat<3, 3, T> const& g, M3 const& r) { LD d = 0; for (int c = 0; c < 3; ++c) for (int k = 0; k < 3; ++k) d = nmax(d, fabsl((LD)g[c][k] - r.a[c][k])); return d; }
+template<class T> static LD mdiff4(glm::mat<4, 4, T> const& g, M3 const& r) { LD d = 0; for (int c = 0; c < 3; ++c) for (int k = 0; k < 3; ++k) d = nmax(d, fabsl((LD)g[c][k] - r.a[c][k])); return d; }
 template<class T> static std::string qs(glm::qua<T> const& q) { return "(w=" + str((double)q.w) + ",x=" + str((double)q.x) + ",y=" + str((double)q.y) + ",z=" + str((double)q.z) + ")"; }
 template<class T> static glm::qua<T> unitq(Rng& g, int kind) {
 	LD x = g.real(-1, 1), y = g.real(-1, 1), z = g.real(-1, 1), w = g.real(-1, 1);
@@ -34,7 +34,7 @@ template<class T> static void run(Rng& g, int n) {
 		  for (int r = 0; r < 3; ++r) if (!(fabsl((LD)a[r] - rv[r]) <= tol * 8 && fabsl((LD)b[r] - rv[r]) <= tol * 8 && fabsl((LD)c4[r] - rv[r]) <= tol * 8 && fabsl((LD)m4[r] - rv[r]) <= tol * 8 && fabsl((LD)gr[r] - rv[r]) <= tol * 8)) ok = false;
 		  if (!(c4.w == 1)) ok = false; if (!ok) fail("q_mul_v3" + ty, "rotation", qs(q) + " v=(" + str((double)v.x) + "," + str((double)v.y) + "," + str((double)v.z) + ")", "(" + str((double)rv[0]) + "," + str((double)rv[1]) + "," + str((double)rv[2]) + ")", "(" + str((double)a.x) + "," + str((double)a.y) + "," + str((double)a.z) + ") / mat3: (" + str((double)b.x) + "," + str((double)b.y) + "," + str((double)b.z) + ")"); }
 		{ count("mat3_cast" + ty); if (!(mdiff(glm::mat3_cast(q), R) <= tol)) fail("mat3_cast" + ty, "value", qs(q), "Rodrigues matrix", "differs"); }
-		{ count("quat_cast" + ty); auto p = glm::quat_cast(glm::mat3_cast(q)); LD d1 = 0, d2 = 0; LD a[4] = {p.x, p.y, p.z, p.w}, b[4] = {q.x, q.y, q.z, q.w}; for (int i = 0; i < 4; ++i) { d1 = std::max(d1, fabsl(a[i] - b[i])); d2 = std::max(d2, fabsl(a[i] + b[i])); }
+		{ count("quat_cast" + ty); auto p = glm::quat_cast(glm::mat3_cast(q)); LD d1 = 0, d2 = 0; LD a[4] = {p.x, p.y, p.z, p.w}, b[4] = {q.x, q.y, q.z, q.w}; for (int i = 0; i < 4; ++i) { d1 = nmax(d1, fabsl(a[i] - b[i])); d2 = nmax(d2, fabsl(a[i] + b[i])); }
 		  if (!(std::min(d1, d2) <= tol * 8)) fail("quat_cast" + ty, kind == 4 ? "near-tie" : "value", qs(q), "+-q", qs(p)); }
 		{ auto q2 = unitq<T>(g, it % 3); count("product" + ty); M3 R2 = qmat(q2.x, q2.y, q2.z, q2.w); if (!(mdiff(glm::mat3_cast(q * q2), mul(R, R2)) <= tol * 4)) fail("product" + ty, "value", qs(q) + "*" + qs(q2), "M(q1)M(q2)", "differs"); }
 		{ count("inverse" + ty); auto i = q * glm::inverse(q); auto cj = glm::conjugate(q); auto iv = glm::inverse(q); if (!(fabsl((LD)i.w - 1) <= tol && fabsl((LD)i.x) <= tol && fabsl((LD)i.y) <= tol && fabsl((LD)i.z) <= tol && fabsl((LD)cj.x - iv.x) <= tol && fabsl((LD)cj.w - iv.w) <= tol)) fail("inverse" + ty, "value", qs(q), "identity", qs(i)); }
